@@ -393,8 +393,13 @@ def h_write(env, c):
         if exc is None and final is not None and env.is_true(final[1] == 0) and len(flat) == n:
             env.prove(bool(res), "write.confirmed_complete_transfer_is_reported_as_success")
     else:
+        env.prove(not any(k == "cmd" for k, _ in iface.sent), "write.load_image_sends_no_command")
         if exc is None and res:
             env.prove(len(flat) == n, "write.success_only_when_all_bytes_were_sent")
+        if exc is None and wf is None:
+            env.prove(bool(res) and len(flat) == n, "write.load_image_without_fault_delivers_everything")
+        if wf is not None:
+            env.prove(exc is not None or not res, "write.refused_chunk_is_a_failure")
 
 
 # ---------------------------------------------------------------------------------------------------- negotiation
@@ -620,8 +625,18 @@ def cases(tier):
                     cs.append({"id": f"{op}/n={n}/P={P}/exc={int(exc)}/K={K}", "h": "write", "op": op, "n": n, "P": P, "exc": exc,
                                "K": K})
             for kind in ("abort", "timeout", "connerr"):
-                cs.append({"id": f"{op}/n=9/P=4/exc={int(exc)}/K=2/wfault=1:{kind}", "h": "write", "op": op, "n": 9, "P": 4,
-                           "exc": exc, "K": 2, "wfault": (1, kind)})
+                for at in (0, 1, 2):       # the refused chunk: first, middle, last
+                    cs.append({"id": f"{op}/n=9/P=4/exc={int(exc)}/K=2/wfault={at}:{kind}", "h": "write", "op": op, "n": 9, "P": 4,
+                               "exc": exc, "K": 2, "wfault": (at, kind)})
+    # load_image: no command, no final response - the result rests on the data phase alone
+    for exc in (False, True):
+        for n, P in ((1, 4), (4, 4), (9, 4), (8, 8)):
+            cs.append({"id": f"load_image/n={n}/P={P}/exc={int(exc)}/K=1", "h": "write", "op": "load_image", "n": n, "P": P,
+                       "exc": exc, "K": 1})
+            for kind in ("abort", "timeout", "connerr"):
+                for at in range((n + P - 1) // P):
+                    cs.append({"id": f"load_image/n={n}/P={P}/exc={int(exc)}/K=1/wfault={at}:{kind}", "h": "write",
+                               "op": "load_image", "n": n, "P": P, "exc": exc, "K": 1, "wfault": (at, kind)})
     for n in (5,):
         for K in (2, 3):
             cs.append({"id": f"negotiate/n={n}/K={K}", "h": "negotiate", "n": n, "K": K})
